@@ -282,6 +282,10 @@ func (g *Gen) assumeSliceWF(v Val) {
 	for i, c := range l {
 		if strings.HasSuffix(c.Path, "#len") && i+1 < len(l) && strings.HasSuffix(l[i+1].Path, "#cap") && v.C[i].Sort == SInt {
 			g.assume(Term{app("<=", v.C[i].S, v.C[i+1].S), SBool})
+			if i >= 2 && strings.HasSuffix(l[i-2].Path, "#base") {
+				// a nil slice (data pointer nil) has length and capacity 0
+				g.assume(Term{app("=>", app("=", v.C[i-2].S, "0"), app("=", v.C[i+1].S, "0")), SBool})
+			}
 		}
 	}
 }
